@@ -635,7 +635,22 @@ func (in *Interp) step(g *G) {
 	case *ssa.Convert:
 		in.set(fr, ins, in.convert(ins.X.Type(), ins.Type(), in.get(fr, ins.X)))
 	case *ssa.SliceToArrayPointer:
-		unsupported("SliceToArrayPointer")
+		// the array shares the slice's cells: writes through either are seen through the other
+		x := in.get(fr, ins.X)
+		n := int(ins.Type().Underlying().(*types.Pointer).Elem().Underlying().(*types.Array).Len())
+		var cells []Value
+		if x.R != nil {
+			cells = x.R.(*SliceV).S
+		}
+		if len(cells) < n {
+			in.goPanic(g, fmt.Sprintf("cannot convert slice with length %d to array or pointer to array with length %d", len(cells), n))
+			return
+		}
+		if x.R == nil {
+			in.set(fr, ins, Value{K: KPtr}) // nil slice to pointer to zero-length array: nil
+			break
+		}
+		in.set(fr, ins, Value{K: KPtr, R: &Value{K: KArray, R: cells[:n:n]}})
 	case *ssa.MakeInterface:
 		in.set(fr, ins, Value{K: KIface, R: &IfaceV{T: ins.X.Type(), V: copyVal(in.get(fr, ins.X))}})
 	case *ssa.Extract:
